@@ -626,4 +626,36 @@ def rule_header(ck):
     ck.extra['header_tests'] = n
 
 
-RULES = [rule_dispatch, rule_slots, rule_kinds, rule_rollover, rule_rank, rule_records, rule_time_and_order, rule_header, rule_value_width]
+# columns a format description marks as optional: (reader, row variable) -> {column: what}
+OPTIONAL_COLUMNS = {'csep.utils.readers.csep_ascii': ('line', {6: 'event_id'})}
+
+
+def rule_optional_columns(ck):
+    """D2.optional: the CSEP layout is `lon, lat, M, time_string, depth, catalog_id, [event_id]` - a record without the last column is
+    well-formed.  The reader may take the optional column only under a test of the record length or inside a try that catches
+    IndexError; a bare `line[6]` rejects every record written without event ids."""
+    P = ck.prog
+    ck.clause('D2')
+    for q, (row, cols) in OPTIONAL_COLUMNS.items():
+        f = P.func(q)
+        for n in all_nodes(f):
+            if not (isinstance(n, ast.Subscript) and isinstance(n.ctx, ast.Load) and isinstance(n.value, ast.Name) and n.value.id == row
+                    and const_value(n.slice) in cols):
+                continue
+            o = ck.ob('C19-D2.optional', f, n, n)
+            prot = False
+            cur = n
+            while getattr(cur, '_parent', None) is not None and cur is not f.node:
+                up = cur._parent
+                if isinstance(up, ast.Try) and cur in up.body and any(h.type is None or any(w in u(h.type) for w in ('IndexError', 'LookupError', 'Exception')) for h in up.handlers):
+                    prot = True
+                if isinstance(up, (ast.If, ast.IfExp)) and ('len(%s)' % row) in u(up.test):
+                    prot = True
+                cur = up
+            prot = prot or any(('len(%s)' % row) in u(t) for t, pol in guards_of(n, f.node))
+            (o.ok('taken only when the record has it') if prot else
+             o.fail('`%s` is read from every record, but the %s column is optional in the format (`..., catalog_id, [%s]`): a record without it '
+                    'raises IndexError instead of being decoded' % (u(n), cols[const_value(n.slice)], cols[const_value(n.slice)])))
+
+
+RULES = [rule_dispatch, rule_slots, rule_kinds, rule_rollover, rule_rank, rule_records, rule_time_and_order, rule_header, rule_value_width, rule_optional_columns]
